@@ -22,6 +22,7 @@ import (
 	"github.com/goghcrow/yae/conv"
 	"github.com/goghcrow/yae/interp"
 	"github.com/goghcrow/yae/parser/ast"
+	"github.com/goghcrow/yae/parser/oper"
 	"github.com/goghcrow/yae/types"
 	"github.com/goghcrow/yae/val"
 )
@@ -189,6 +190,111 @@ func main() {
 			}
 			wg.Wait()
 		}
+	}
+	// (5) one callable over object values whose own types list the fields in different orders
+	// (equal types, different storage order), from many goroutines
+	{
+		type ab struct {
+			A float64 `yae:"a"`
+			B float64 `yae:"b"`
+		}
+		type ba struct {
+			B float64 `yae:"b"`
+			A float64 `yae:"a"`
+		}
+		type hostAB struct {
+			O ab `yae:"o"`
+		}
+		type hostBA struct {
+			O ba `yae:"o"`
+		}
+		for _, comp := range compilers {
+			for _, p := range []string{`o.a * 10 + o.b`, `[o.b, o.a][0] + o.a`, `string(o) + string(o.a)`} {
+				c, err := newEngineWith(comp).Compile(p, hostAB{ab{1, 2}})
+				if err != nil {
+					mismatch(fmt.Sprintf("[%s] compile %q fails: %v", comp, p, err))
+					continue
+				}
+				hosts := []interface{}{hostAB{ab{1, 2}}, hostBA{ba{2, 1}}, hostAB{ab{3, 4}}, hostBA{ba{4, 3}}}
+				aloneO := make([]string, len(hosts))
+				for h, host := range hosts {
+					c1, err1 := newEngineWith(comp).Compile(p, host)
+					if err1 != nil {
+						aloneO[h] = "compile error: " + err1.Error()
+						continue
+					}
+					aloneO[h] = describe(c1(host))
+				}
+				var wg sync.WaitGroup
+				for g := 0; g < *gor; g++ {
+					wg.Add(1)
+					g := g
+					go func() {
+						defer wg.Done()
+						for i := 0; i < *iters+50; i++ {
+							h := (g + i) % len(hosts)
+							if got := describe(c(hosts[h])); got != aloneO[h] {
+								mismatch(fmt.Sprintf("[%s] invoke %q concurrently with %T%v: %s, alone: %s", comp, p, hosts[h], hosts[h], got, aloneO[h]))
+								return
+							}
+						}
+					}()
+					count += *iters + 50
+				}
+				wg.Wait()
+			}
+		}
+	}
+	// (6) separate engines with DIFFERENT operator tables compile concurrently
+	{
+		mk := func(k int) *yae.Expr {
+			e := newEngineWith("vm")
+			switch k % 3 {
+			case 1:
+				e.RegisterOperator(oper.Operator{Kind: "<>", BP: oper.BP_EQ, Fixity: oper.INFIX_N}).
+					RegisterFun(val.Fun(types.Fun("<>", []*types.Type{types.Num, types.Num}, types.Bool), func(a ...*val.Val) *val.Val { return val.Bool(a[0].Num().V != a[1].Num().V) }))
+			case 2:
+				e.RegisterOperator(oper.Operator{Kind: "**", BP: oper.BP_EXP, Fixity: oper.INFIX_R}, oper.Operator{Kind: "contains", BP: oper.BP_CMP, Fixity: oper.INFIX_N}).
+					RegisterFun(val.Fun(types.Fun("**", []*types.Type{types.Num, types.Num}, types.Num), func(a ...*val.Val) *val.Val { return val.Num(a[0].Num().V * a[1].Num().V) }))
+			}
+			return e
+		}
+		progs := [][]string{{`n1 + 1 > 2`, `len(xs) * 2`, `s1 + "x"`}, {`n1 <> 2`, `n1 + 1 <> n1`, `b1 && n1 <> 0`}, {`n1 ** 2`, `2 ** n1 ** 2`, `n1 * 2 ** 3`}}
+		aloneC := map[string]string{}
+		for k := 0; k < 3; k++ {
+			for _, p := range progs[k] {
+				c1, err1 := mk(k).Compile(p, e)
+				if err1 != nil {
+					aloneC[fmt.Sprint(k, p)] = "compile error: " + err1.Error()
+				} else {
+					aloneC[fmt.Sprint(k, p)] = describe(c1(e))
+				}
+			}
+		}
+		var wg sync.WaitGroup
+		for g := 0; g < *gor; g++ {
+			wg.Add(1)
+			g := g
+			go func() {
+				defer wg.Done()
+				for i := 0; i < *iters/4+5; i++ {
+					k := (g + i) % 3
+					p := progs[k][i%len(progs[k])]
+					got := ""
+					if c1, err1 := mk(k).Compile(p, e); err1 != nil {
+						got = "compile error: " + err1.Error()
+					} else {
+						got = describe(c1(e))
+					}
+					if got != aloneC[fmt.Sprint(k, p)] {
+						mismatch(fmt.Sprintf("engine with operator table #%d compiles %q concurrently with engines of other tables: %s, alone: %s", k, p, got, aloneC[fmt.Sprint(k, p)]))
+						return
+					}
+				}
+			}()
+			count += *iters/4 + 5
+		}
+		wg.Wait()
 	}
 	// (4) one parsed tree, compiled concurrently against different type environments
 	for _, comp := range compilers {
